@@ -119,3 +119,14 @@ package syslutil
 //@   pure
 //@   ensures [new-set] result != nil && fresh(result)
 //@   loop 0 invariant [own] s != nil && fresh(s)
+
+// Name joining only computes strings.
+//@ func JoinAppName
+//@   pure
+//@   deterministic
+//@ func JoinAppNameParts
+//@   pure
+//@   deterministic
+//@ func JoinTypePath
+//@   pure
+//@   deterministic
